@@ -62,6 +62,10 @@ func normalize(network Network, proto Protocol, req, resp *dns.Msg, maxMsgSize u
 			Option: filterUnsupportedOptions(reqOpt.Option),
 		}
 		resp.Extra = append(resp.Extra, respOpt)
+
+		// Echo the client's UDP payload size in the new OPT record, the same
+		// way it is done for an OPT record that is already in resp.
+		respOpt.SetUDPSize(ednsUDPSize)
 	}
 
 	// Make sure that we don't send messages larger than the protocol supports.
